@@ -19,7 +19,8 @@ CLAIMED = {
              "per-occurrence grouping in MatchedArg (short symbolic op sequences); (MIR->SMT) ArgMatcher::needs_more_vals == 'pending count < max' and Parser::verify_num_args accepting exactly "
              "the counts inside the declared range; react's delimiter loop contributes every piece of split(value, declared delimiter) unfiltered, and keeps a delimited value whole exactly under dont_delimit_trailing_values at or after the first "
              "trailing index (solver clause over the index arithmetic); parse_long_arg / parse_short_arg return MaybeHyphenValue before any key lookup when the pending option OR positional allows hyphen values. "
-             "Says nothing about the rest of token classification or index assignment (DESIGN 0).",
+             "Index bookkeeping: one pass of push_arg_values (one value, one index, in that order) and react's rule for the flag's own index. "
+             "Says nothing about the rest of token classification (DESIGN 0).",
         note="Kernel-level only. Trusted: rustc/Kani translation, std as compiled by Kani, CBMC; for the MIR kernels every callee is a pure opaque value (listed in the evidence).",
         ref="2 C02", technique=MIX),
     "C03": dict(
@@ -49,8 +50,9 @@ CLAIMED = {
     "C06": dict(
         text="PARTIAL. (Kani) source lattice (ValueSource order, set_source keeps the maximum, explicit-ness) for all source sequences <= 3, and the implicit default / "
              "missing-value tables of every ArgAction incl. what Arg::_build installs. (MIR->SMT) fixed phase order of Parser::get_matches_with and its error-ignoring recovery closure: "
-             "parse, resolve_pending, add_env, add_defaults, validate on every feasible path. What add_env/add_defaults/react do inside is out of reach.",
-        note="Kernel-level only; the bodies of add_env/add_defaults/react are not encoded.",
+             "parse, resolve_pending, add_env, add_defaults, validate on every feasible path. add_env / add_default_value record only EnvVariable / DefaultValue, and supply a value only on paths where matcher.contains(this argument) was consulted and is false, at most once per argument. "
+             "What react does with such values is covered only as far as C02/C07 go.",
+        note="Kernel-level only; callees of add_env/add_default_value are opaque.",
         ref="2 C06", technique=MIX),
     "C07": dict(
         text="PARTIAL. (Kani) action tables for every ArgAction and the default-action / value-count inference of Arg::_build for all num_args ranges, positional or not, 0-2 value names. "
@@ -111,7 +113,7 @@ CLAIMED = {
         ref="2 C18", technique="own MIR->SMT translation of a loop body (bit-vectors), z3 + cvc5, native replay"),
     "C19": dict(
         text="PARTIAL (thin). MIR->SMT (z3 + cvc5) on clap_mangen: each of the 8 hidden-item filter closures (synopsis, options, subcommands, possible values, per-subcommand pages, has-arguments / has-subcommands "
-             "predicates) equals `!item.is_hide_set()`, and Man::render emits its sections once each in the fixed order with OPTIONS / SUBCOMMANDS / VERSION present iff their guard predicate holds. "
+             "predicates) equals `!item.is_hide_set()`, every loop of render::synopsis over arguments/positionals runs over such a filter, and Man::render emits its sections once each in the fixed order with OPTIONS / SUBCOMMANDS / VERSION present iff their guard predicate holds. "
              "That rendering never panics, determinism, and that author-supplied text cannot start a roff request (escaping is in the third-party roff crate) are NOT decided.",
         note="The section renderers and iterator adaptors are opaque; that the filters are applied to every item is trusted. Realised natively by /verif/native/c19 (32 hide/version/author combinations rendered).",
         ref="2 C19", technique="own MIR->SMT translation: closure equivalence and call order on paths, z3 + cvc5, native replay"),
